@@ -4,6 +4,7 @@
 
   Part A  Go -> JavaScript -> Go on scalars, pointers and containers (Set / Get / Export / To* / MarshalJSON)
   Part B  JavaScript -> Go: predicates, and `export` of JSON-like data (structure, Go typing, panic)
+  Part B' `exportPath` on object graphs: sharing is invisible (acyclic), the cut is exactly at a back edge (cyclic)
   Part C  Value.Call / Object.Call / Otto.Call against the equivalent in-language call
   Each deviation region used by the driver (Spec.Dev) has a kernel-checked witness at the end.
 -/
@@ -848,6 +849,220 @@ theorem call_equiv (E : Env) (p : Path) (args : List GoVal)
   | ottoCallThis m g => exact enterThis_eq E g (hthis g (by simp [pathThis]))
 
 example : OKVal (.ptr (.sc true (.int .int 6))) := ⟨_, rfl, trivial⟩
+
+
+
+/-! ## Part B': object graphs – sharing and cycles -/
+
+/-- no hole in the element list (and none inside its leaves) -/
+def ElemsOK (es : List (Option HVal)) : Prop := ∀ e ∈ es, ∃ v, e = some v ∧ hvalHole v = false
+def PropsOK (ps : List (List Nat × HVal)) : Prop := ∀ p ∈ ps, hvalHole p.2 = false
+def NodeOK : HNode → Prop
+  | .arr es => ElemsOK es
+  | .obj ps => PropsOK ps
+def HeapOK (H : Heap) : Prop := ∀ (a : Nat) (n : HNode), H[a]? = some n → NodeOK n
+
+theorem mapElems_struct (E : Env) (f : HVal → Res GoVal) (u : HVal → Res Spec.Tree)
+    (hfu : ∀ v g, hvalHole v = false → f v = .ok g → u v = .ok (Spec.erase E g)) :
+    (es : List (Option HVal)) → ElemsOK es → (gs : GoVals) → mapElems f es = .ok gs →
+    Spec.mapTrees u es = .ok (Spec.eraseList E gs)
+  | [], _, gs, h => by simp only [mapElems, Res.ok.injEq] at h; subst h; rfl
+  | none :: r, hok, gs, h => by
+    obtain ⟨v, hv, _⟩ := hok none (by simp)
+    cases hv
+  | some v :: r, hok, gs, h => by
+    obtain ⟨v', hv', hh⟩ := hok (some v) (by simp)
+    cases hv'
+    simp only [mapElems] at h
+    cases hfv : f v with
+    | ok g =>
+      rw [hfv] at h
+      cases hr : mapElems f r with
+      | ok gs' =>
+        rw [hr] at h
+        simp only [Res.bind, Res.map, Res.ok.injEq] at h; subst h
+        have ih := mapElems_struct E f u hfu r (fun e he => hok e (by simp [he])) gs' hr
+        simp only [Spec.mapTrees, hfu v g hh hfv, Res.bind, ih, Res.map, Spec.eraseList]
+      | typeError => rw [hr] at h; cases h
+      | panic => rw [hr] at h; cases h
+      | err => rw [hr] at h; cases h
+    | typeError => rw [hfv] at h; cases h
+    | panic => rw [hfv] at h; cases h
+    | err => rw [hfv] at h; cases h
+
+theorem mapProps_struct (E : Env) (f : HVal → Res GoVal) (u : HVal → Res Spec.Tree)
+    (hfu : ∀ v g, hvalHole v = false → f v = .ok g → u v = .ok (Spec.erase E g)) :
+    (ps : List (List Nat × HVal)) → PropsOK ps → (kvs : GoKVs) → mapProps f ps = .ok kvs →
+    Spec.mapTreeKVs u ps = .ok (Spec.eraseKVs E kvs)
+  | [], _, kvs, h => by simp only [mapProps, Res.ok.injEq] at h; subst h; rfl
+  | (k, v) :: r, hok, kvs, h => by
+    have hh : hvalHole v = false := hok (k, v) (by simp)
+    have hokr : PropsOK r := fun p hp => hok p (by simp [hp])
+    simp only [mapProps] at h
+    by_cases hu : isUndefH v = true
+    · simp only [hu, if_true] at h
+      simp only [Spec.mapTreeKVs, hu, if_true]
+      exact mapProps_struct E f u hfu r hokr kvs h
+    · simp only [hu, if_false, Bool.false_eq_true] at h
+      simp only [Spec.mapTreeKVs, hu, if_false, Bool.false_eq_true]
+      cases hfv : f v with
+      | ok g =>
+        rw [hfv] at h
+        cases hr : mapProps f r with
+        | ok kvs' =>
+          rw [hr] at h
+          simp only [Res.bind, Res.map, Res.ok.injEq] at h; subst h
+          have ih := mapProps_struct E f u hfu r hokr kvs' hr
+          simp only [hfu v g hh hfv, Res.bind, ih, Res.map, Spec.eraseKVs]
+        | typeError => rw [hr] at h; cases h
+        | panic => rw [hr] at h; cases h
+        | err => rw [hr] at h; cases h
+      | typeError => rw [hfv] at h; cases h
+      | panic => rw [hfv] at h; cases h
+      | err => rw [hfv] at h; cases h
+
+/-- Export of a hole-free object graph is structurally the unfolding of the graph cut at back edges:
+    a reference is replaced by the raw value iff it points to an ANCESTOR of its position – for every
+    heap (shared, cyclic), every position and every set of ancestors. -/
+theorem exportH_structural (E : Env) (H : Heap) (hH : HeapOK H) :
+    (fuel : Nat) → (path : List Nat) → (v : HVal) → (g : GoVal) → hvalHole v = false →
+    exportH H fuel path v = .ok g → Spec.unfoldCut E H fuel path v = .ok (Spec.erase E g)
+  | fuel, path, .leaf j, g, hh, h => by
+    cases fuel <;> simp only [exportH] at h <;> simp only [Spec.unfoldCut] <;>
+      rw [export_structural E j (by simpa [hvalHole] using hh) g h]
+  | 0, path, .ref a, g, _, h => by simp [exportH] at h
+  | fuel + 1, path, .ref a, g, _, h => by
+    simp only [exportH] at h
+    simp only [Spec.unfoldCut]
+    by_cases hp : a ∈ path
+    · simp only [hp, if_true, Res.ok.injEq] at h
+      subst h
+      simp [hp, Spec.cutTree]
+    · simp only [hp, if_false] at h
+      simp only [hp, if_false]
+      have ih := fun v g hh h => exportH_structural E H hH fuel (a :: path) v g hh h
+      cases hn : H[a]? with
+      | none => rw [hn] at h; cases h
+      | some n =>
+        rw [hn] at h
+        have hok := hH a n hn
+        cases n with
+        | arr es =>
+          simp only at h ⊢
+          cases he : mapElems (exportH H fuel (a :: path)) es with
+          | ok gs =>
+            rw [he] at h
+            obtain ⟨t, rfl⟩ := finishArr_ok gs g h
+            rw [mapElems_struct E _ _ ih es hok gs he]
+            simp [Res.map, Spec.erase]
+          | typeError => rw [he] at h; cases h
+          | panic => rw [he] at h; cases h
+          | err => rw [he] at h; cases h
+        | obj ps =>
+          simp only at h ⊢
+          cases he : mapProps (exportH H fuel (a :: path)) ps with
+          | ok kvs =>
+            rw [he] at h
+            simp only [Res.map, Res.ok.injEq] at h; subst h
+            rw [mapProps_struct E _ _ ih ps hok kvs he]
+            simp [Res.map, Spec.erase]
+          | typeError => rw [he] at h; cases h
+          | panic => rw [he] at h; cases h
+          | err => rw [he] at h; cases h
+
+
+
+/-- acyclic heaps, presented in topological order: every reference points to a lower address
+    (every finite acyclic graph can be numbered this way) -/
+def RefBelow (a : Nat) : HVal → Prop
+  | .ref b => b < a
+  | .leaf _ => True
+def NodeOrd (a : Nat) : HNode → Prop
+  | .arr es => ∀ v, some v ∈ es → RefBelow a v
+  | .obj ps => ∀ p ∈ ps, RefBelow a p.2
+def Ordered (H : Heap) : Prop := ∀ (a : Nat) (n : HNode), H[a]? = some n → NodeOrd a n
+
+theorem mapTrees_congr (f g : HVal → Res Spec.Tree) :
+    (es : List (Option HVal)) → (∀ v, some v ∈ es → f v = g v) → Spec.mapTrees f es = Spec.mapTrees g es
+  | [], _ => rfl
+  | none :: r, h => by
+    simp only [Spec.mapTrees]; rw [mapTrees_congr f g r (fun v hv => h v (by simp [hv]))]
+  | some v :: r, h => by
+    simp only [Spec.mapTrees]
+    rw [h v (by simp), mapTrees_congr f g r (fun v hv => h v (by simp [hv]))]
+
+theorem mapTreeKVs_congr (f g : HVal → Res Spec.Tree) :
+    (ps : List (List Nat × HVal)) → (∀ p ∈ ps, f p.2 = g p.2) → Spec.mapTreeKVs f ps = Spec.mapTreeKVs g ps
+  | [], _ => rfl
+  | (k, v) :: r, h => by
+    simp only [Spec.mapTreeKVs]
+    rw [h (k, v) (by simp), mapTreeKVs_congr f g r (fun p hp => h p (by simp [hp]))]
+
+/-- On an acyclic heap the cut never happens: the unfolding with ancestors equals the plain tree
+    unfolding, in which object identity plays no role – SHARING IS INVISIBLE. -/
+theorem unfold_dag (E : Env) (H : Heap) (hO : Ordered H) :
+    (fuel : Nat) → (anc : List Nat) → (v : HVal) → (∀ b, v = .ref b → ∀ p ∈ anc, b < p) →
+    Spec.unfoldCut E H fuel anc v = Spec.unfoldTree E H fuel v
+  | fuel, anc, .leaf j, _ => by cases fuel <;> rfl
+  | 0, anc, .ref a, _ => rfl
+  | fuel + 1, anc, .ref a, h => by
+    have ha : a ∉ anc := fun hin => Nat.lt_irrefl a (h a rfl a hin)
+    simp only [Spec.unfoldCut, Spec.unfoldTree, ha, if_false]
+    cases hn : H[a]? with
+    | none => rfl
+    | some n =>
+      have hord := hO a n hn
+      have key : ∀ v, RefBelow a v → Spec.unfoldCut E H fuel (a :: anc) v = Spec.unfoldTree E H fuel v := by
+        intro v hv
+        apply unfold_dag E H hO fuel (a :: anc) v
+        intro b hb p hp
+        subst hb
+        simp only [RefBelow] at hv
+        rcases List.mem_cons.mp hp with rfl | hp'
+        · exact hv
+        · exact Nat.lt_trans hv (h a rfl p hp')
+      cases n with
+      | arr es =>
+        simp only
+        rw [mapTrees_congr _ _ es (fun v hv => key v (hord v hv))]
+      | obj ps =>
+        simp only
+        rw [mapTreeKVs_congr _ _ ps (fun p hp => key p.2 (hord p hp))]
+
+/-- Export of a hole-free ACYCLIC graph = its tree unfolding, however much of it is shared. -/
+theorem export_dag (E : Env) (H : Heap) (hH : HeapOK H) (hO : Ordered H) (fuel : Nat) (v : HVal) (g : GoVal)
+    (hh : hvalHole v = false) (h : exportH H fuel [] v = .ok g) :
+    Spec.unfoldTree E H fuel v = .ok (Spec.erase E g) := by
+  rw [← unfold_dag E H hO fuel [] v (fun _ _ p hp => by cases hp)]
+  exact exportH_structural E H hH fuel [] v g hh h
+
+/-- the cut happens exactly at a back edge -/
+theorem export_cut (H : Heap) (fuel : Nat) (path : List Nat) (a : Nat) :
+    (a ∈ path → exportH H (fuel + 1) path (.ref a) = .ok (rawValue a)) ∧
+    (a ∉ path → ∀ es, H[a]? = some (.arr es) →
+      exportH H (fuel + 1) path (.ref a) = (mapElems (exportH H fuel (a :: path)) es).bind finishArr) ∧
+    (a ∉ path → ∀ ps, H[a]? = some (.obj ps) →
+      exportH H (fuel + 1) path (.ref a) = (mapProps (exportH H fuel (a :: path)) ps).map fun kvs => .map .iface false kvs) := by
+  refine ⟨fun h => by simp [exportH, h], fun h es hn => by simp [exportH, h, hn], fun h ps hn => by simp [exportH, h, hn]⟩
+
+-- {first: r, second: r} with r = [1,2,3]: shared, acyclic – both occurrences are exported in full
+def hShared : Heap := [.arr [some (.leaf (.prim (.int .i64 1))), some (.leaf (.prim (.int .i64 2)))],
+                       .obj [([102], .ref 0), ([115], .ref 0)]]
+example : Ordered hShared ∧ HeapOK hShared := by
+  constructor
+  · intro a n h
+    match a, h with
+    | 0, h => simp [hShared] at h; subst h; simp [NodeOrd, RefBelow]
+    | 1, h => simp [hShared] at h; subst h; simp [NodeOrd, RefBelow]
+    | a + 2, h => simp [hShared] at h
+  · intro a n h
+    match a, h with
+    | 0, h => simp [hShared] at h; subst h; simp [NodeOK, ElemsOK, hvalHole, hasHole]
+    | 1, h => simp [hShared] at h; subst h; simp [NodeOK, PropsOK, hvalHole]
+    | a + 2, h => simp [hShared] at h
+example : (exportH hShared 3 [] (.ref 1)).map (Spec.erase env0) = Spec.unfoldTree env0 hShared 3 (.ref 1) := by decide
+-- o.self = o : the cut, and nothing but the cut
+example : exportH [.obj [([115], .ref 0)]] 2 [] (.ref 0) = .ok (.map .iface false (.cons [115] (rawValue 0) .nil)) := by decide
 
 
 end OttoVerif.C15.Thm
